@@ -274,7 +274,11 @@ func c14GuardBacking(ctx *core.Ctx, r *core.Report) {
 				switch x := in.(type) {
 				case *ssa.MapUpdate:
 					if instrDominates(x, c) {
-						marked = true
+						// for resolver.module the mark that matters is the module's own: it is what a
+						// module met again further down the import chain finds
+						if g.key != "module-visited" || (len(f.Params) > 1 && core.Strip(x.Value) == ssa.Value(f.Params[1])) {
+							marked = true
+						}
 					}
 				case *ssa.Lookup:
 					if x.CommaOk && (instrDominates(x, c) || x.Block().Dominates(c.Block())) {
